@@ -155,6 +155,10 @@ def judge(ck, trace_path, lines, name, spec):
     ck.nontrivial = len(keys)
     v = ck.validate(os.path.join(SPECDIR, spec + ".tla"), os.path.join(SPECDIR, spec + ".cfg"), trace_path, n_exec=len(execs))
     ck.note("%s: %d executions, inconclusive=%d" % (name, len(execs), inconclusive))
+    if len(execs) >= 20 and inconclusive * 3 > len(execs):
+        # executions that ran into the step limit decide nothing: a third of them is a harness problem (or a livelock) that
+        # must not pass silently
+        raise vf.Infra("%s: %d of %d executions ended at the step limit (inconclusive)" % (name, inconclusive, len(execs)))
     if not v.accepted:
         x = vf.exec_index_of_line(events, v.maxl)
         start, evs = execs[min(x, len(execs) - 1)]
